@@ -15,6 +15,7 @@ Directives (one per line, all start with `//@`):
       (closed by //@end; may contain //@map lines)
   //@extract file=<path> fn=<name> [impl=<regex on impl header>] [as=<newname>] [vis=<text>]
   //@map <regex> => <replacement>        D4/S substitution on signature + body (logged)
+  //@map? <regex> => <replacement>       same, but not an error when nothing matches
   //@sigmap <regex> => <replacement>     substitution on the signature only (logged)
   //@norule <D1|D2|D3|D5|R1|N1|N2|N3>    disable a rule for this function
   //@arms keep=<regex>                   rule A: keep only match arms whose pattern matches
@@ -37,6 +38,7 @@ Rewrite rules (closed list, every application logged with source line):
   N3  `if let P = E && C {A} else {B}` -> `match E { P if C => {A} _ => {B} }`
   N4  `E.map_or(LIT, |p| B)` -> `(match E { Some(p) => B, None => LIT })` (definition of Option::map_or)
   N5  `E.map(|p| B).unwrap_or(LIT)` -> `(match E { Some(p) => B, None => LIT })`
+  N7  `E.is_some_and(|p| B)` / `E.is_none_or(|p| B)` -> `match` (definitions)
   N6  iterator chains `X.iter().any(|p| B)` and `X.iter().filter(|p| F).map(|q| E).collect()` ->
       explicit `for` loops (definitions of the adapters for side-effect-free closures)
   A   arm focus (see //@arms)
@@ -853,6 +855,28 @@ def desugar_iter_chains(text, log, relfile, line):
     raise VxError("N6: did not reach a fixpoint")
 
 
+def rule_N7(src, lo, hi, enabled):
+    """E.is_some_and(|p| B) -> (match E { Some(p) => B, None => false })
+       E.is_none_or(|p| B)  -> (match E { Some(p) => B, None => true })   (definitions of the std methods)"""
+    out = []
+    if "N7" not in enabled:
+        return out
+    toks = code_toks(tokenize(src[lo:hi], lo))
+    n = len(toks)
+    for i, t in enumerate(toks):
+        if t.kind == "ident" and t.text in ("is_some_and", "is_none_or") and i > 0 and toks[i - 1].text == "." and i + 2 < n \
+                and toks[i + 1].text == "(" and toks[i + 2].text == "|":
+            pat, body, c = _closure_parts(toks, src, i + 1)
+            rs = _recv_start(toks, i - 1)
+            recv = src[toks[rs].start:toks[i - 1].start].strip()
+            if "\n" in recv or "?" in recv:
+                # receiver spans lines / uses `?`: keep it as an expression statement prefix
+                pass
+            dflt = "false" if t.text == "is_some_and" else "true"
+            out.append(("N7", toks[rs].start, toks[c].end, "(match %s { Some(%s) => %s, None => %s })" % (recv, pat, body, dflt)))
+    return out
+
+
 def rule_A(src, lo, hi, keep_re):
     """Arm focus on the outermost `match` of the function body whose arms are event variants:
     every arm whose pattern does not match keep_re gets the body `{ return vx_other_arm(self) }`."""
@@ -1061,7 +1085,7 @@ def loop_headers(body):
 # --------------------------------------------------------------------------------------
 # vspec processing
 # --------------------------------------------------------------------------------------
-ALL_RULES = ["D1", "D2", "D3", "D5", "D6", "R1", "N1", "N2", "N3", "N4", "N5", "N6"]
+ALL_RULES = ["D1", "D2", "D3", "D5", "D6", "R1", "N1", "N2", "N3", "N4", "N5", "N6", "N7"]
 KV_RE = re.compile(r'(\w+)=("([^"]*)"|\S+)')
 
 
@@ -1212,9 +1236,13 @@ class Gen:
         cur_at = None
         for vl, b in block:
             bs = b.strip()
-            if bs.startswith("map "):
+            if bs.startswith("map? "):
+                frm, to = _split_map(bs[5:])
+                maps.append((frm, to.rstrip(), True))
+                mode = None
+            elif bs.startswith("map "):
                 frm, to = _split_map(bs[4:])
-                maps.append((frm, to.rstrip()))
+                maps.append((frm, to.rstrip(), False))
                 mode = None
             elif bs.startswith("sigmap "):
                 frm, to = _split_map(bs[7:])
@@ -1315,6 +1343,7 @@ class Gen:
         edits += rule_N3(src, lo, hi, enabled)
         edits += rule_N4(src, lo, hi, enabled)
         edits += rule_N5(src, lo, hi, enabled)
+        edits += rule_N7(src, lo, hi, enabled)
         for rule, s, e, repl in edits:
             if rule not in ("D1", "D2"):
                 pass
@@ -1333,9 +1362,11 @@ class Gen:
             body = "".join(o)
             body = "\n".join(l for l in body.split("\n") if l.strip() != "")
         # maps
-        for frm, to in maps:
+        for frm, to, optional in maps:
             hits = len(re.findall(frm, sig_text)) + len(re.findall(frm, body))
             if hits == 0:
+                if optional:
+                    continue
                 raise VxError("anchor lost: map %r matches nothing in %s::%s" % (frm, rel, name))
             sig_text = re.sub(frm, to, sig_text)
             body = re.sub(frm, to, body)
